@@ -494,12 +494,11 @@ class ExtraCoords(ExtraCoordsABC):
             x = np.arange(c, d+f, f)
             x = x[x <= d-1]
             new_grids.append(x)
-        new_grids = np.array(new_grids, dtype=object)
         for array_axes, coord in self._lookup_tables:
             if np.isscalar(array_axes):
                 new_coord = coord.interpolate(new_grids[array_axes], **kwargs)
             else:
-                new_coord = coord.interpolate(*new_grids[np.asarray(array_axes)], **kwargs)
+                new_coord = coord.interpolate(*[new_grids[axis] for axis in array_axes], **kwargs)
             new_ec.add(coord.names, array_axes, new_coord, physical_types=coord.physical_types)
         return new_ec
 
